@@ -12,7 +12,7 @@ RULE = ('E1.31: valid data packets (current and rev2 framing) and discovery page
         'previous PDU in the block, blocks ending inside a length field, wrong vectors, zero CID x DMP address '
         'type/size nibbles, increment, number of slots (0, n-1..n+2, 512-514, 0xffff), start codes, options, '
         'priorities 199-201, universes x DMP data cut at 0/1/5/6/7/8 bytes x >512 slots (clamp) x DMP PDUs ending exactly at each field boundary with consistent outer lengths after a full packet for '
-        'the same/another universe x E1.33 (RPT) / LLRP packets (root -> framing header -> RDM PDU) with the same '
+        'the same/another universe x blocks of 2-3 PDUs per layer whose last PDU claims remaining-1/remaining/+1/+40/its untruncated length/block/block+1 with V/H inheritance flags varied, after a longer datagram x source names of LEN-2/LEN-1/LEN non-NUL bytes followed by non-zero bytes (decoded source name observed at HandlePDUData and the discovery callback) x E1.33 (RPT) / LLRP packets (root -> framing header -> RDM PDU) with the same '
         'length/flag/vector mutations x every truncation '
         'length 0-139 and around the end x datagrams of capacity-1/capacity/capacity+1/1600 bytes with consistent '
         'and inconsistent lengths x discovery pages with an odd payload length x 3-9 packet sequences from several '
@@ -70,6 +70,10 @@ def gen_consts(v):
         ('VECTOR_E131_DATA', a + 'VECTOR_E131_DATA'),
         ('VECTOR_E131_DISCOVERY', a + 'VECTOR_E131_DISCOVERY'),
         ('DMP_SET_PROPERTY_VECTOR', a + 'DMP_SET_PROPERTY_VECTOR'),
+        ('E131_SOURCE_NAME_LEN', a + 'E131Header::SOURCE_NAME_LEN'),
+        ('E131_OFF_source', 'offsetof(' + a + 'E131Header::e131_pdu_header, source)'),
+        ('REV2_SOURCE_NAME_LEN', a + 'E131Rev2Header::REV2_SOURCE_NAME_LEN'),
+        ('REV2_OFF_source', 'offsetof(' + a + 'E131Rev2Header::e131_rev2_pdu_header, source)'),
         ('VECTOR_ROOT_RPT', a + 'VECTOR_ROOT_RPT'), ('VECTOR_ROOT_LLRP', a + 'VECTOR_ROOT_LLRP'),
         ('VECTOR_FRAMING_RDMNET', a + 'VECTOR_FRAMING_RDMNET'), ('VECTOR_LLRP_RDM_CMD', a + 'VECTOR_LLRP_RDM_CMD'),
         ('VECTOR_RDM_CMD_RDM_DATA', a + 'VECTOR_RDM_CMD_RDM_DATA'),
@@ -146,12 +150,16 @@ class P(object):
         self.d = dict(fl=0x70)
         self.r_more, self.e_more, self.d_more = [], [], []   # further PDUs of the block (raw bytes)
         self.r_pre, self.e_pre, self.d_pre = [], [], []      # PDUs in front
+        self.name = None                                      # source name bytes (unpadded)
+        self.resv = [0, 0]
         self.__dict__.update(kw)
 
     def ehdr(self):
         if self.kind == 'rev2':
-            return list(b'src'.ljust(32, b'\0')) + [self.prio, self.seq] + be16(self.uni)
-        return list(b'source'.ljust(64, b'\0')) + [self.prio, 0, 0, self.seq, self.opts] + be16(self.uni)
+            nm = list(b'src') if self.name is None else list(self.name)
+            return (nm + [0] * 32)[:32] + [self.prio, self.seq] + be16(self.uni)
+        nm = list(b'source') if self.name is None else list(self.name)
+        return (nm + [0] * 64)[:64] + [self.prio] + list(self.resv) + [self.seq, self.opts] + be16(self.uni)
 
     def dmp_data(self):
         if self.kind == 'rev2':
@@ -396,6 +404,55 @@ def rpt_cases(rng, quick):
             yield [rpt_packet(rng, kind, n=k)]
 
 
+def long_names(rng, quick):
+    """yield (config, [datagrams]): source names of LEN-2/LEN-1/LEN non-NUL bytes, every later byte of the datagram
+    non-zero where the protocol allows it, datagram ending right after the last universe / slot, after a long one"""
+    for kind in ('disc', 'data', 'rev2'):
+        ln = 32 if kind == 'rev2' else 64
+        for k in (ln - 2, ln - 1, ln):
+            for prevlong in (False, True):
+                nm = [rng.randrange(1, 256) for _ in range(k)]
+                v = P(rng, kind=kind, name=nm, resv=[3, 4], prio=100, seq=rng.randrange(1, 256), opts=0x21, uni=0x0101,
+                      start=0x0101, sc=0, slots=[rng.randrange(1, 256) for _ in range(5)],
+                      unis=[0x0101 + i for i in range(rng.choice([0, 1, 3]))], page=1, last=2)
+                prev = P(rng, kind='data', uni=1, slots=[rng.randrange(1, 256) for _ in range(512 if prevlong else 3)])
+                yield '0,1:none,257:none', [hx(prev.build()), hx(v.build())]
+                if not quick or k == ln:
+                    big = 1472 - len(clone(v, unis=[], slots=[]).build())
+                    w = clone(v, unis=[0x0101] * (big // 2), slots=[7] * big)
+                    yield '0,1:none,257:none', [hx(w.build())]
+
+
+def overclaim(rng, quick):
+    """yield (config, [datagrams]): blocks of 2-3 PDUs at each layer (root / E1.31 framing / DMP) whose LAST PDU claims
+    remaining-1 / remaining / remaining+1 / its full untruncated length (<= block total when the first PDU is big) /
+    more than the block, the datagram ending inside that PDU; inheritance flags varied; after a longer datagram"""
+    for kind in ('data', 'rev2'):
+        for lv in ('r', 'e', 'd'):
+            for fl in (0x70, 0x30, 0x50, 0x10):
+                for nfirst in ((1, 2) if not quick else (rng.choice([1, 2]),)):
+                    seq = rng.randrange(100)
+                    first = P(rng, kind=kind, uni=1, cid=cid_of(1), prio=100, seq=seq, opts=0,
+                              slots=[rng.randrange(1, 256) for _ in range(512)])
+                    last = P(rng, kind=kind, uni=2 if lv != 'd' else 1, cid=cid_of(1 if lv != 'r' else 2), prio=100,
+                             seq=(seq + 1) & 255, opts=0, slots=[rng.randrange(1, 256) for _ in range(200)])
+                    getattr(last, lv)['fl'] = fl
+                    full = {'r': last.r_pdu, 'e': last.e_pdu, 'd': last.dmp_pdu}[lv]()
+                    keep = len(full) - 150           # the datagram ends after 50 of the 200 slots
+                    total = {'r': first.r_pdu, 'e': first.e_pdu, 'd': first.dmp_pdu}[lv]()
+                    block = len(total) * nfirst + keep
+                    for claim in (keep - 1, keep, keep + 1, keep + 40, len(full), block, block + 1, 0xfff):
+                        piece = full[:keep]
+                        piece[0] = (piece[0] & 0xf0 & ~0x80) | ((claim >> 8) & 0xf)
+                        piece[1] = claim & 255
+                        extra = total * (nfirst - 1) + piece
+                        q = clone(first, **{lv + '_more': extra})
+                        prev = P(rng, kind=kind, uni=2, cid=cid_of(3), prio=100,
+                                 slots=[rng.randrange(1, 256) for _ in range(512)])
+                        pad = [rng.randrange(1, 256) for _ in range(400)]
+                        yield '0,1:none,2:none', [hx(prev.build() + pad), hx(q.build())]
+
+
 def odd_disc(rng):
     """discovery pages whose universe list has an odd number of bytes (fixes/02)"""
     v = P(rng, kind='disc', unis=[1, 2])
@@ -440,6 +497,11 @@ def gen_cases(rng, tier):
     for _ in range(3 if quick else 200):
         yield 'acn %s %s' % (config(rng), ' '.join(earlier(rng) + [hx(odd_disc(rng))]))
     for _ in range(1 if quick else 10):
+        for cfg, dgs in long_names(rng, quick):
+            yield 'acn %s %s' % (cfg, ' '.join(dgs))
+        for cfg, dgs in overclaim(rng, quick):
+            yield 'acn %s %s' % (cfg, ' '.join(dgs))
+    for _ in range(1 if quick else 10):
         for dgs in rpt_cases(rng, quick):
             yield 'acn %s %s' % (config(rng), ' '.join(hx(d) for d in dgs))
     for _ in range(1 if quick else 20):
@@ -473,4 +535,9 @@ def gen_cases(rng, tier):
 
 
 def nontrivial(payload, md):
-    return any(('e:' in v and not v.startswith('e:-')) for k, v in md.items() if k.startswith('s'))
+    for k, v in md.items():
+        if k.startswith('s') and v.startswith('e:'):
+            evs = v[2:].split('|')[0].split('+')
+            if any(e and e[0] in 'dprl' for e in evs):
+                return True
+    return False
